@@ -685,3 +685,102 @@ def gen_backup(rng, tier):
     for _ in range(rng.randrange(0, 25)):
         sim.op()
     return sim.finish()
+
+
+# ------------------------------------------------------------------------------------------------
+# sequential skiplist, builder, merge iterator (C13 sequential, C14, C18)
+# ------------------------------------------------------------------------------------------------
+
+def _lvl(rng):
+    return rng.choice((0, 0, 0, 0, 1, 1, 2, 3, 5, 9, 40))
+
+
+def gen_skipseq(rng, tier):
+    L = []
+    nkeys = rng.choice((2, 4, 8, 30))
+    nh = 0
+    for _ in range(rng.randrange(5, 80 if tier == 'quick' else 400)):
+        r = rng.random()
+        k = rng.randrange(nkeys)
+        if r < 0.4:
+            L.append('ins %d lvl=%d' % (k, _lvl(rng)))
+        elif r < 0.6:
+            L.append('del %d' % k)
+        elif r < 0.68:
+            L.append('look %d' % k)
+        elif r < 0.78:
+            nh += 1
+            L.append('getnode %d h%d' % (k, nh))
+            if rng.random() < 0.7:
+                L.append('delnode h%d' % nh)
+            if rng.random() < 0.3:
+                L.append('delnode h%d' % rng.randrange(1, nh + 1))
+        elif r < 0.86:
+            L.append('walk')
+            L.append('stats')
+        elif r < 0.93:
+            L.append('seek %d' % rng.randrange(nkeys + 2))
+        else:
+            L.append('iter')
+    L += ['walk', 'stats', 'iter']
+    return L
+
+
+def gen_builder(rng, tier):
+    L = []
+    nseg = rng.choice((0, 1, 2, 3, 5, 8))
+    names = ['s%d' % i for i in range(nseg)]
+    for n in names:
+        L.append('seg_new ' + n)
+    # ascending keys distributed over the segments in order; some segments stay empty
+    k = 0
+    sizes = [rng.choice((0, 0, 1, 2, 5, 20)) for _ in names]
+    adds = []
+    for n, sz in zip(names, sizes):
+        for _ in range(sz):
+            k += rng.randrange(1, 4)
+            adds.append((n, k))
+    # segments are filled "concurrently": interleave the Add calls of different segments, keeping each one's order
+    per = {n: [a for a in adds if a[0] == n] for n in names}
+    while any(per.values()):
+        n = rng.choice([n for n in names if per[n]])
+        seg, key = per[n].pop(0)
+        L.append('seg_add %s %d lvl=%d' % (seg, key, _lvl(rng)))
+    L.append('assemble ' + (','.join(names) if names else '.'))
+    L += ['walk', 'stats', 'iter']
+    for _ in range(rng.randrange(0, 25)):
+        r = rng.random()
+        kk = rng.randrange(k + 3)
+        if r < 0.4:
+            L.append('ins %d lvl=%d' % (kk, _lvl(rng)))
+        elif r < 0.7:
+            L.append('del %d' % kk)
+        elif r < 0.85:
+            L.append('seek %d' % kk)
+        else:
+            L.append('look %d' % kk)
+    L += ['walk', 'stats', 'iter']
+    return L
+
+
+def gen_merge(rng, tier):
+    L = []
+    n = rng.choice((0, 1, 2, 3, 4, 6))
+    ids = []
+    for i in range(n):
+        ks = sorted(set(rng.randrange(12) for _ in range(rng.choice((0, 0, 1, 3, 6)))))
+        L.append('list l%d %s' % (i, ','.join(map(str, ks)) if ks else '.'))
+        ids.append('l%d' % i)
+    L.append('m_new ' + (','.join(ids) if ids else '.'))
+    L.append(rng.choice(('m_first', 'm_seek %d' % rng.randrange(14))))
+    for _ in range(rng.randrange(3, 40)):
+        r = rng.random()
+        if r < 0.7:
+            L.append('m_next')
+        elif r < 0.85:
+            L.append('m_first')
+        else:
+            L.append('m_seek %d' % rng.randrange(14))
+    L.append('m_first')
+    L += ['m_next'] * 20
+    return L
